@@ -78,7 +78,7 @@ PROPS = {
                 "the same op is executed again on a clone of the pre-state and must give bit-identical outputs and an equal state; "
                 "support/domain and exact sample counts ((sample, thinning, burn_in) from the grid {0,1,2,3,7,50,200}x{1,2,3,10,200}x"
                 "{0,1,5,200}) are checked; vector Poisson must equal the scalar call sequence; no entropy may come from anywhere but the "
-                "generator. Law runs (about 12%): a pool of 2e4..1e6 draws of one sampler collected while an intruder sampler is "
+                "generator. Law runs (about 20%): a pool of 2e4..1e6 draws of one sampler collected while an intruder sampler is "
                 "called on the same generator every 1..50 draws, tested with the DKW inequality at level 1e-12 (plus Poisson moment "
                 "bands; Metropolis from independent 200-step chains, and a loose moment check on long thinned chains). "
                 "Non-trivial: history run with >=3 different sampler kinds and >=1 op starting from a used generator state, or law "
